@@ -603,11 +603,26 @@ pub fn run(ctx: &Ctx) -> Rep {
             let mut w: Vec<u32> = cards.iter().map(|&i| crate::model::word(i)).collect();
             // arrangements: as generated, shuffled, and shuffled with seeded multiples flags (bits 29-31) on
             // some cards - legal words that look like cards to anything that masks the flags off
-            for arrangement in 0..5 {
+            for arrangement in 0..6 {
+                if arrangement == 5 {
+                    // the hand marked the way the marks are meant to be used: every card of the class
+                    // representative flagged with the multiplicity of its rank (pair / trips / quads), the two
+                    // extra cards unmarked - a *consistently* marked hand, which seeded marks almost never are
+                    w = cards.iter().map(|&i| crate::model::word(i)).collect();
+                    for k in 0..5 {
+                        let mult = (0..5).filter(|&j| crate::model::rank_of(cards[j]) == crate::model::rank_of(cards[k])).count();
+                        w[k] |= match mult {
+                            2 => 1 << 29,
+                            3 => 1 << 30,
+                            4 => 1 << 31,
+                            _ => 0,
+                        };
+                    }
+                }
                 if arrangement >= 1 {
                     rng.shuffle(&mut w);
                 }
-                if arrangement >= 3 {
+                if arrangement == 3 || arrangement == 4 {
                     // card-shaped words whose low 12 bits are not the card's: in some slots (3) / in all (4)
                     for x in w.iter_mut() {
                         *x &= 0x1FFF_FFFF;
@@ -624,7 +639,7 @@ pub fn run(ctx: &Ctx) -> Rep {
                     }
                 }
                 for n in [6usize, 7] {
-                    if ctx.smoke() && (n == 7 || arrangement == 1 || arrangement == 3) {
+                    if ctx.smoke() && (n == 7 || arrangement == 1 || arrangement == 3 || arrangement == 5) {
                         continue;
                     }
                     let h = &w[..n];
@@ -644,7 +659,7 @@ pub fn run(ctx: &Ctx) -> Rep {
                     }
                     // every in-range index tuple
                     // (the card-shaped arrangements go through the constructors only)
-                    let total = if arrangement >= 3 { 0 } else { (n as u64).pow(5) };
+                    let total = if arrangement == 3 || arrangement == 4 { 0 } else { (n as u64).pow(5) };
                     for mut code in 0..total {
                         let mut p = [0u8; 5];
                         for k in 0..5 {
